@@ -74,6 +74,11 @@ func c03Specs() []built {
 	// a rewriter whose result is not itself on the allowlist (https missing): every surviving src is still the rewriter's result
 	out = append(out, spec.Spec{Name: "url-http-only-rw1", Base: "new", Calls: []C{base[0], base[1], base[2], base[3], base[4],
 		{Op: "AllowURLSchemes", Names: []string{"http", "mailto"}}, opt("AllowRelativeURLs", false), {Op: "RewriteSrc", Fn: "proxy"}}})
+	// the URL attributes admitted Globally() instead of per element
+	out = append(out, spec.Spec{Name: "url-global-attrs-rw0", Base: "new", Calls: []C{
+		els("a", "area", "base", "link", "blockquote", "del", "ins", "q", "audio", "embed", "iframe", "img", "input", "script", "source", "track", "video"),
+		attrsGlob([]string{"href", "cite", "src", "title"}, ""), opt("AllowUnsafe", true), opt("RequireParseableURLs", true),
+		{Op: "AllowURLSchemes", Names: []string{"http", "https"}}, opt("AllowRelativeURLs", false)}})
 	// the shipped policy too (implies URL checking through AllowStandardURLs)
 	out = append(out, specByName("ugc"), specByName("cmd-email"))
 	return buildAll(out)
@@ -199,7 +204,7 @@ func runC03(c *run.Ctx) {
 		if strings.HasSuffix(n, "rw0") || n == "url-rel1-v0-rw1" || n == "url-rel0-v1-rw1" {
 			deepMain = append(deepMain, bs[i])
 		}
-		if n == "url-rel0-v0-rw0" || n == "url-rel1-v1-rw1" || n == "url-rel1-v2-rw0" || n == "url-http-only-rw1" {
+		if n == "url-rel0-v0-rw0" || n == "url-rel1-v1-rw1" || n == "url-rel1-v2-rw0" || n == "url-http-only-rw1" || n == "url-global-attrs-rw0" {
 			deepRest = append(deepRest, bs[i])
 		}
 	}
